@@ -21,6 +21,7 @@ package main
 
 import (
 	"encoding/hex"
+	"encoding/json"
 	"flag"
 	"fmt"
 	"math/rand"
@@ -29,6 +30,7 @@ import (
 	"runtime"
 	"strings"
 
+	"com.tuntun.rangers/node/src/common"
 	"com.tuntun.rangers/node/src/middleware/types"
 	"verif/harness/internal/codecutil"
 	"verif/harness/internal/vutil"
@@ -43,6 +45,7 @@ type tcase struct {
 	Txs      [][]int           `json:"txs"`
 	Tv       string            `json:"tv"`
 	Cv       string            `json:"cv"`
+	Inter    string            `json:"inter"`
 }
 
 // tryWhere runs f; on a panic it reports the innermost function of the node
@@ -143,7 +146,22 @@ var codecs = map[string]codec{
 	},
 }
 
-var kinds = []string{"tx", "txs", "header", "block", "group"}
+func init() {
+	codecs["member"] = codec{
+		marshal: func(v interface{}) ([]byte, error) { return types.MarshalMember(v.(*types.Member)) },
+		parse: func(b []byte) (interface{}, bool, error) {
+			m, err := types.UnMarshalMember(b)
+			return m, m != nil, err
+		},
+		project: func(v interface{}) proj { return projMember(v.(*types.Member)) },
+		hash: func(v interface{}) string {
+			m := v.(*types.Member)
+			return pHash(common.BytesToHash(common.Sha256(append(append([]byte{}, m.Id...), m.PubKey...))))
+		},
+	}
+}
+
+var kinds = []string{"tx", "txs", "header", "block", "group", "member"}
 
 type outcome struct {
 	res, where, msg string
@@ -172,11 +190,31 @@ func doParse(kind string, b []byte) outcome {
 }
 
 // pass = serialise + parse
-func doPass(kind string, v interface{}) outcome {
+func doPass(kind string, v interface{}) outcome { return doPassRetained(kind, v, "none", nil) }
+
+// doPassRetained: serialise v and keep the bytes; let another value of the same kind be serialised
+// (on this goroutine, or on another one that is waited for); only then parse the kept bytes.
+func doPassRetained(kind string, v interface{}, inter string, other interface{}) outcome {
 	c := codecs[kind]
 	var b []byte
 	var err error
-	p, where, msg := tryWhere(func() { b, err = c.marshal(v) })
+	p, where, msg := tryWhere(func() {
+		b, err = c.marshal(v)
+		switch inter {
+		case "same-goroutine":
+			c.marshal(other)
+		case "other-goroutine":
+			done := make(chan struct{})
+			go func() {
+				defer close(done)
+				defer func() { recover() }()
+				c.marshal(other)
+			}()
+			<-done
+			// the other goroutine may have run on another P: once more here as well after it
+			// (different pooled buffers per P), which is what a node under load does anyway
+		}
+	})
 	if p {
 		return outcome{res: "marshal-panic", where: where, msg: msg}
 	}
@@ -204,16 +242,20 @@ func safeProject(kind string, v interface{}) (proj, string) {
 }
 
 func roundTrip(kind string, v interface{}, src string, cls map[string]string) {
-	ev := map[string]interface{}{"event": "RoundTrip", "kind": kind, "src": src, "cls": cls}
+	roundTripRetained(kind, v, src, cls, "none", nil)
+}
+
+func roundTripRetained(kind string, v interface{}, src string, cls map[string]string, inter string, other interface{}) {
+	ev := map[string]interface{}{"event": "RoundTrip", "kind": kind, "src": src, "cls": cls, "inter": inter}
 	ev["x"], ev["h0"] = safeProject(kind, v)
-	o1 := doPass(kind, v)
+	o1 := doPassRetained(kind, v, inter, other)
 	ev["pass1"] = o1.form()
 	ev["x1"], ev["h1"] = proj{}, ""
 	ev["pass2"] = outcome{res: "skipped"}.form()
 	ev["x2"], ev["h2"] = proj{}, ""
 	if o1.res == "object" {
 		ev["x1"], ev["h1"] = safeProject(kind, o1.v)
-		o2 := doPass(kind, o1.v)
+		o2 := doPassRetained(kind, o1.v, inter, other)
 		ev["pass2"] = o2.form()
 		if o2.res == "object" {
 			ev["x2"], ev["h2"] = safeProject(kind, o2.v)
@@ -259,14 +301,142 @@ func parseEvent(kind string, in []byte, src string, c *tcase) {
 	emit(ev)
 }
 
+// card reads a cardinality key ("#txs" |-> "200"); -1 when absent or not a number.
+func card(cls classes, key string) int {
+	s, ok := cls[key]
+	if !ok {
+		return -1
+	}
+	n := 0
+	for _, ch := range s {
+		if ch < '0' || ch > '9' {
+			return -1
+		}
+		n = n*10 + int(ch-'0')
+	}
+	return n
+}
+
+func manyTxs(n int, rng *rand.Rand) []*types.Transaction {
+	l := make([]*types.Transaction, n)
+	for i := range l {
+		l[i] = buildTx(classes{}, rng)
+	}
+	return l
+}
+
+// concurrent: K goroutines serialise and parse DIFFERENT values of one kind at the same time, each
+// keeping its bytes across the others' calls.  Every goroutine compares what it gets with what the
+// same calls gave sequentially beforehand; only differing results are emitted - as RoundTrip events
+// (inter = "concurrent"), judged by the monitor like any other.
+func concurrent(kind string, vals []interface{}, rounds, iters int) (ran, emitted int) {
+	c := codecs[kind]
+	k := len(vals)
+	type ref struct {
+		x    proj
+		h0   string
+		enc  []byte
+		key1 string
+	}
+	refs := make([]ref, k)
+	key := func(o outcome) string {
+		if o.res != "object" {
+			return o.res
+		}
+		x1, h1 := safeProject(kind, o.v)
+		b, _ := json.Marshal([]interface{}{x1, h1})
+		return string(b)
+	}
+	for i, v := range vals {
+		r := ref{}
+		r.x, r.h0 = safeProject(kind, v)
+		o := doPass(kind, v)
+		if o.res != "object" {
+			return
+		}
+		r.enc, _ = c.marshal(v)
+		r.key1 = key(o)
+		refs[i] = r
+	}
+	type res struct {
+		ev map[string]interface{}
+		n  int
+	}
+	for r := 0; r < rounds; r++ {
+		ch := make(chan res, k)
+		start := make(chan struct{})
+		for i := range vals {
+			go func(i int) {
+				var bad map[string]interface{}
+				n := 0
+				<-start
+				for it := 0; it < iters && bad == nil; it++ {
+					n++
+					o := doPass(kind, vals[i])
+					if key(o) != refs[i].key1 {
+						bad = map[string]interface{}{"event": "RoundTrip", "kind": kind, "src": "conc", "cls": map[string]string{}, "inter": "concurrent",
+							"x": refs[i].x, "h0": refs[i].h0, "pass1": o.form(), "x1": proj{}, "h1": "",
+							"pass2": outcome{res: "skipped"}.form(), "x2": proj{}, "h2": ""}
+						if o.res == "object" {
+							bad["x1"], bad["h1"] = safeProject(kind, o.v)
+						}
+					}
+				}
+				ch <- res{bad, n}
+			}(i)
+		}
+		close(start)
+		for j := 0; j < k; j++ {
+			x := <-ch
+			ran += x.n
+			if x.ev != nil && emitted < 500 {
+				emit(x.ev)
+				emitted++
+			}
+		}
+	}
+	return
+}
+
 func buildKind(kind string, cls classes, rng *rand.Rand) interface{} {
 	switch kind {
+	case "member":
+		return &types.Member{Id: cBytes(cls.get("Id"), rng), PubKey: cBytes(cls.get("PubKey"), rng)}
 	case "tx":
-		return buildTx(cls, rng)
+		t := buildTx(cls, rng)
+		if n := card(cls, "#SubTransactions"); n >= 0 {
+			t.SubTransactions = make([]types.UserData, n)
+			for i := range t.SubTransactions {
+				t.SubTransactions[i] = types.UserData{Address: uint64(i), TransferData: types.TransferData{Balance: "1"}}
+			}
+		}
+		return t
 	case "txs":
+		if n := card(cls, "#list"); n >= 0 {
+			return manyTxs(n, rng)
+		}
 		return []*types.Transaction{buildTx(cls, rng), buildTx(classes{}, rng)}
 	case "header":
-		return buildHeader(cls, rng)
+		h := buildHeader(cls, rng)
+		if n := card(cls, "#Transactions"); n >= 0 {
+			h.Transactions = make([]common.Hashes, n)
+			for i := range h.Transactions {
+				h.Transactions[i] = common.Hashes{cHash("typ", rng), cHash("typ", rng)}
+			}
+		}
+		if n := card(cls, "#EvictedTxs"); n >= 0 {
+			h.EvictedTxs = make([]common.Hash, n)
+			for i := range h.EvictedTxs {
+				h.EvictedTxs[i] = cHash("typ", rng)
+			}
+		}
+		if n := card(cls, "#RequestIds"); n >= 0 {
+			h.RequestIds = map[string]uint64{}
+			for i := 0; i < n; i++ {
+				h.RequestIds[fmt.Sprintf("k%03d", i)] = rng.Uint64()
+			}
+		}
+		return h
 	case "block":
 		// cls keys "T.<field>" steer the first transaction, the others the header
 		tc := classes{}
@@ -279,6 +449,15 @@ func buildKind(kind string, cls classes, rng *rand.Rand) interface{} {
 			}
 		}
 		b := &types.Block{Header: buildHeader(hc, rng)}
+		if n := card(cls, "#txs"); n >= 0 {
+			// a block as the proposer builds it: n bodies and their n hash pairs in the header
+			b.Transactions = manyTxs(n, rng)
+			b.Header.Transactions = make([]common.Hashes, n)
+			for i, t := range b.Transactions {
+				b.Header.Transactions[i] = common.Hashes{t.Hash, t.SubHash}
+			}
+			return b
+		}
 		switch cls["#txs"] {
 		case "nil":
 		case "empty":
@@ -288,7 +467,14 @@ func buildKind(kind string, cls classes, rng *rand.Rand) interface{} {
 		}
 		return b
 	case "group":
-		return buildGroup(cls, rng)
+		g := buildGroup(cls, rng)
+		if n := card(cls, "#Members"); n >= 0 {
+			g.Members = make([][]byte, n)
+			for i := range g.Members {
+				g.Members[i] = cBytes("typ", rng)
+			}
+		}
+		return g
 	}
 	vutil.Fatalf("unknown kind %q", kind)
 	return nil
@@ -373,6 +559,7 @@ func main() {
 	nRandom := flag.Int("random", 0, "number of seeded random values / byte strings per kind")
 	salt := flag.Int64("salt", 0, "extra seed salt (shard number)")
 	scratch := flag.String("scratch", "", "scratch directory (cwd of the run: the node's logger writes there)")
+	concRounds := flag.Int("conc", 0, "concurrency family: rounds per kind (8 goroutines, 40 passes each)")
 	flag.Parse()
 	outAbs, _ := filepath.Abs(*out)
 	casesAbs := *casesPath
@@ -398,6 +585,9 @@ func main() {
 		switch c.Op {
 		case "rt":
 			roundTrip(c.Kind, buildKind(c.Kind, classes(c.Cls), rng), "tlc", c.Cls)
+		case "retain":
+			a := buildKind(c.Kind, classes(c.Cls), rng)
+			roundTripRetained(c.Kind, a, "retain", c.Cls, c.Inter, buildKind(c.Kind, randClasses(c.Kind, rng), rng))
 		case "presence":
 			parseEvent(c.Kind, encPresence(c, rng), "presence", c)
 		default:
@@ -436,8 +626,27 @@ func main() {
 			}
 		}
 	}
+	concRan := 0
+	if *concRounds > 0 {
+		for _, kind := range kinds {
+			vals := make([]interface{}, 8)
+			for i := range vals {
+				cls := randClasses(kind, rng)
+				if kind == "block" {
+					cls["#txs"] = []string{"0", "1", "2", "5", "20", "60", "two", "empty"}[i]
+				}
+				vals[i] = buildKind(kind, cls, rng)
+			}
+			for _, procs := range []int{runtime.NumCPU(), 1} {
+				old := runtime.GOMAXPROCS(procs)
+				r, _ := concurrent(kind, vals, *concRounds, 40)
+				runtime.GOMAXPROCS(old)
+				concRan += r
+			}
+		}
+	}
 	tr.Close()
-	fmt.Printf("c09: events=%d", tr.N)
+	fmt.Printf("c09: conc_passes=%d events=%d", concRan, tr.N)
 	for _, k := range kinds {
 		fmt.Printf(" rt.%s=%d parse.%s=%d", k, counts["RoundTrip."+k], k, counts["Parse."+k])
 	}
